@@ -173,6 +173,29 @@ Proof.
       apply Z.div_le_lower_bound; lia.
 Qed.
 
+(* Open01: (0,1) *)
+Lemma frac_range x c : 0 < x < c -> 0 < x * / c < 1.
+Proof.
+  intros [H0 H1]. assert (0 < / c) by (apply Rinv_0_lt_compat; lra). split; [apply Rmult_lt_0_compat; assumption|].
+  apply Rmult_lt_reg_r with c; [lra|]. rewrite Rmult_assoc, Rinv_l by lra. lra.
+Qed.
+Lemma u_open_range t w : word w -> exists U, evalX (u_open t w) = Xreal U /\ 0 < U < 1.
+Proof.
+  intros [H0 H1]. destruct t; cbn [u_open evalX]; rewrite xdy_real; eexists; (split; [reflexivity|]).
+  - assert (1 <= 2 * (hi32 w / 2 ^ 9) + 1 <= 16777215)%Z as [A B].
+    { unfold hi32. assert (0 <= w / 2 ^ 32 / 2 ^ 9)%Z by (apply Z.div_pos; [apply Z.div_pos|]; lia).
+      assert (w / 2 ^ 32 / 2 ^ 9 < 2 ^ 23)%Z; [|lia]. rewrite Z.div_div by lia.
+      apply Z.div_lt_upper_bound; [lia|]. change (2 ^ 32 * 2 ^ 9 * 2 ^ 23)%Z with (2 ^ 64)%Z. exact H1. }
+    apply IZR_le in A, B. change (powerRZ 2 (-24)) with (/ 2 ^ 24). assert (2 ^ 24 = 16777216) as -> by (simpl; lra).
+    apply frac_range. lra.
+  - assert (1 <= 2 * (w / 2 ^ 12) + 1 <= 9007199254740991)%Z as [A B].
+    { assert (0 <= w / 2 ^ 12)%Z by (apply Z.div_pos; lia). assert (w / 2 ^ 12 < 2 ^ 52)%Z; [|lia].
+      apply Z.div_lt_upper_bound; [lia|]. change (2 ^ 12 * 2 ^ 52)%Z with (2 ^ 64)%Z. exact H1. }
+    apply IZR_le in A, B. change (powerRZ 2 (-53)) with (/ 2 ^ 53). assert (2 ^ 53 = 9007199254740992) as -> by (simpl; lra).
+    apply frac_range. lra.
+Qed.
+
+
 (* ---- (1) *_run: one word, one expression ------------------------------------------------------- *)
 Definition cauchy_expr (t : fty) (median scale : Z * Z) (w : Z) : expr :=
   Bin Add (dyx median) (Bin Mul (dyx scale) (Un Tan (Bin Mul Pi (u_std t w)))).
